@@ -48,6 +48,10 @@ pub struct Sched {
     /// injected errors are transient (returned once) instead of sticky
     #[serde(default)]
     pub transient: bool,
+    /// injected errors are `ErrorKind::Interrupted` (returned once; the consumer repeats the call):
+    /// the result is the fault-free one or an error, never a clean different result
+    #[serde(default)]
+    pub interrupt: bool,
     /// capacity of the BufReader between the scripted source and the subject (reader side)
     pub cap: usize,
     pub consumer: Consumer,
@@ -84,6 +88,7 @@ fn explore_reader<O: PartialEq + std::fmt::Debug>(
                 SrcOpts {
                     faults: s.faults,
                     transient: s.transient,
+                    interrupt: s.interrupt,
                     boundaries: boundaries.to_vec(),
                     uniform: s.uniform,
                     ..Default::default()
@@ -117,7 +122,23 @@ fn explore_reader<O: PartialEq + std::fmt::Debug>(
                         ));
                         return false;
                     }
-                    if script.fault_injected() {
+                    if script.fault_injected() && s.interrupt {
+                        // an interrupted read is repeated (by std's helpers inside the library, or
+                        // by the consumer): the fault-free result, or the interruption passed on
+                        match &r {
+                            Ok(o) if o == want => true,
+                            // the interruption (or the error state it leaves behind) is reported
+                            Err(_) => true,
+                            other => {
+                                let d = format!("{other:?}");
+                                viol = Some((
+                                    format!("C09:{name}:interrupted-read-changes-the-result"),
+                                    format!("one read of the source was interrupted (ErrorKind::Interrupted, nothing consumed) and the result is {} ; schedule {}", &d[..d.len().min(300)], sched()),
+                                ));
+                                false
+                            }
+                        }
+                    } else if script.fault_injected() {
                         if let Ok(o) = &r {
                             let how = if o == want { "complete" } else { "shorter-or-different" };
                             viol = Some((
@@ -773,6 +794,17 @@ pub fn check(ctx: &Ctx) {
         uniform: None,
         faults: true,
         transient: false,
+        interrupt: false,
+        cap,
+        consumer,
+    };
+    // one read of the source is interrupted (ErrorKind::Interrupted) at every call in turn
+    let devi = |max_dev: usize, cap: usize, consumer: Consumer| Sched {
+        max_dev,
+        uniform: None,
+        faults: true,
+        transient: true,
+        interrupt: true,
         cap,
         consumer,
     };
@@ -781,6 +813,7 @@ pub fn check(ctx: &Ctx) {
         uniform: None,
         faults: true,
         transient: true,
+        interrupt: false,
         cap,
         consumer,
     };
@@ -789,6 +822,7 @@ pub fn check(ctx: &Ctx) {
         uniform: Some(u),
         faults: false,
         transient: false,
+        interrupt: false,
         cap,
         consumer,
     };
@@ -806,6 +840,8 @@ pub fn check(ctx: &Ctx) {
                 dev(1, 8192, Consumer::Scripted),
                 dev(1, 64, Consumer::ToEnd),
                 devt(1, 8192, Consumer::ToEnd),
+                devi(1, 8192, Consumer::ToEnd),
+                devi(1, 512, Consumer::Fixed(8191)),
                 uni(1, 8192, Consumer::ToEnd),
                 uni(1, 1, Consumer::Fixed(1)),
                 uni(3, 7, Consumer::BufScripted),
@@ -870,7 +906,7 @@ pub fn check(ctx: &Ctx) {
     ctx.run_space(
         "message_reader",
         true,
-        "Message::from_bytes/from_armor over BufReader(cap) over a scripted source -> decrypt -> decompress -> consumer -> verify, for 40 configurations (compression none/zip x plain/SEIPDv1/SEIPDv2 x signed or not x binary/text x armor; armored input with LF and, for odd lengths, CR LF line endings) x payload lengths at the partial-body/chunk boundaries (reader-sourced = partial framing; bytes-sourced = fixed 1/2/5-octet lengths): all executions with <= 1 (thorough also 2) deviations from the default read/consumer answers including an injected source error (sticky, and transient = returned once) at every call, plus uniform 1/2/3/7/511/513-byte sources; consumer = read_to_end, fixed 1/3/8191, scripted sizes, fill_buf/consume. Oracle: same data, mode, signature verdicts; a source error surfaces as an error. Also streams on which a second message follows the first: every way of consuming (read_to_end, read(k), scripted sizes, fill_buf/consume) ends in an error.",
+        "Message::from_bytes/from_armor over BufReader(cap) over a scripted source -> decrypt -> decompress -> consumer -> verify, for 40 configurations (compression none/zip x plain/SEIPDv1/SEIPDv2 x signed or not x binary/text x armor; armored input with LF and, for odd lengths, CR LF line endings) x payload lengths at the partial-body/chunk boundaries (reader-sourced = partial framing; bytes-sourced = fixed 1/2/5-octet lengths): all executions with <= 1 (thorough also 2) deviations from the default read/consumer answers including an injected source error (sticky, transient = returned once, and ErrorKind::Interrupted = nothing read, call again) at every call, plus uniform 1/2/3/7/511/513-byte sources; consumer = read_to_end, fixed 1/3/8191, scripted sizes, fill_buf/consume. Oracle: same data, mode, signature verdicts; a source error surfaces as an error; after an interrupted read, repeated by the consumer as std does, the result is unchanged or an error. Also streams on which a second message follows the first: every way of consuming (read_to_end, read(k), scripted sizes, fill_buf/consume) ends in an error.",
         rc.into_par_iter(),
         run_msg_read,
     );
@@ -954,6 +990,9 @@ pub fn check(ctx: &Ctx) {
                 for cap in if matches!(subject, 0 | 1) { vec![1usize, 5, 8192] } else { vec![8192] } {
                     sc.push(SmallCase { subject, n, sched: dev(if quick || n > 200 { 1 } else { 2 }, cap, consumer), all_compositions: false });
                     sc.push(SmallCase { subject, n, sched: devt(1, cap, consumer), all_compositions: false });
+                    if subject != 6 {
+                        sc.push(SmallCase { subject, n, sched: devi(1, cap, consumer), all_compositions: false });
+                    }
                     for u in [1usize, 2, 3, 7] {
                         sc.push(SmallCase { subject, n, sched: uni(u, cap, consumer), all_compositions: false });
                     }
@@ -972,7 +1011,7 @@ pub fn check(ctx: &Ctx) {
     ctx.run_space(
         "components",
         true,
-        "stream components fed directly from a scripted source/sink: Base64Decoder<Base64Reader<BufReader(cap)>>, PacketParser over a certificate, Signature::verify over a reader (binary, text), CleartextSignedMessage::from_armor, CFB StreamEncryptor, armor::write to a scripted sink (short writes, write/flush errors), DetachedSignature::sign_text_data from a scripted source; <=1 (thorough 2) deviations + uniform sources + faults; ALL compositions of the input for base64 bodies of <= 6 (9) bytes and text-signing inputs of <= 12 (16) bytes",
+        "stream components fed directly from a scripted source/sink: Base64Decoder<Base64Reader<BufReader(cap)>>, PacketParser over a certificate, Signature::verify over a reader (binary, text), CleartextSignedMessage::from_armor, CFB StreamEncryptor, armor::write to a scripted sink (short writes, write/flush errors), DetachedSignature::sign_text_data from a scripted source; <=1 (thorough 2) deviations + uniform sources + faults (sticky, transient, interrupted reads); ALL compositions of the input for base64 bodies of <= 6 (9) bytes and text-signing inputs of <= 12 (16) bytes",
         sc.into_par_iter(),
         run_small,
     );
